@@ -11,6 +11,7 @@ import (
 func init() { props["C03"] = runC03 }
 
 func runC03(c *Ctx) {
+	runPinned(c, "C03")
 	n := int64(12000)
 	if c.Thorough() {
 		n = 1000000
